@@ -968,6 +968,12 @@ func TestC09(t *testing.T) {
 	var inputs []c09Input
 	if cfg.Replay != "" {
 		for _, raw := range cfg.ReplayInputs(t) {
+			var probe struct {
+				Driver string `json:"driver"`
+			}
+			if json.Unmarshal(raw, &probe) == nil && probe.Driver != "" {
+				continue // input of another C09 driver (TestC09Routes)
+			}
 			var in c09Input
 			if err := json.Unmarshal(raw, &in); err != nil {
 				t.Fatalf("replay input: %v", err)
